@@ -122,13 +122,14 @@ example : matchFormat 0x807fffff = formatOf FT_SOP2 ∧ matchFormat 0x80000000 =
     in `encWord` / `hiWord` / `sdwaWord`, independent of the regenerated format table: every well-formed description
     (`wellFormed`: opcode in the decode table, every field within its width, every operand code denoting an operand,
     modifiers in range, a 32-bit literal present exactly when a source field says 255 or the opcode is a VOP2 "K" form)
-    outside the two deviating classes of `deviates` encodes to bytes that decode, WHATEVER bytes follow and on both
+    — since the two repairs of this round also `s_setreg_imm32_b32` with its SIMM32 and SDWA dwords with S0 set, the two
+    classes `deviatesOld` that used to be excluded — encodes to bytes that decode, WHATEVER bytes follow and on both
     architectures, to exactly the instruction the description denotes on that architecture (`instOf c`: name and opcode
     of the row the architecture's table returns — for a CDNA3 disassembler `Gen.cdna3Rows` first —, each operand at its
     role with its register kind, index, code and count, the literal value, immediates, offsets, modifiers and flags,
     size = number of bytes encoded (`instOf_size`)). So the decoder's field extraction is the inverse of the ISA's
     packing, no format shadows another on any well-formed word, and the literal / second dword is found. -/
-theorem decode_encode (c : Bool) (d : Desc) (hwf : wellFormed d = true) (hdev : deviates d = false) (t : List Nat) :
+theorem decode_encode (c : Bool) (d : Desc) (hwf : wellFormed d = true) (t : List Nat) :
     decode c (encode d ++ t) = .ok (instOf c d) := by
   unfold wellFormed at hwf
   simp only [Bool.and_eq_true, beq_iff_eq] at hwf
@@ -179,7 +180,7 @@ theorem decode_encode (c : Bool) (d : Desc) (hwf : wellFormed d = true) (hdev : 
         rw [hnf h (by decide)]
         refine roundtrip_of c d row' f hfm _ hall hsec ?_ t
         rw [a2, a3, a4, a5, hro']
-        exact enc_sopk c d row' f h (hfft.trans h) a1 hro' (by simpa using hfit) hfo hl hdev
+        exact enc_sopk c d row' f h (hfft.trans h) a1 hro' (by simpa using hfit) hfo hl
       · obtain ⟨a1, a2, a3, a4, a5⟩ := fmt_sop1 f hfm (hfft.trans h)
         rw [a2, a3] at hfit
         rw [hnf h (by decide)]
@@ -204,7 +205,7 @@ theorem decode_encode (c : Bool) (d : Desc) (hwf : wellFormed d = true) (hdev : 
         refine roundtrip_of c d row' f hfm _ hall hsec ?_ t
         rw [a2, a3, a4, a5, hro']
         by_cases hs : d.sdwa = 1
-        · exact enc_vop2_sdwa c d row' f h (hfft.trans h) a1 hro' (by simpa using hfit) hs hfo hdev
+        · exact enc_vop2_sdwa c d row' f h (hfft.trans h) a1 hro' (by simpa using hfit) hs hfo
         · exact enc_vop2 c d row' f h (hfft.trans h) a1 hro' (by simpa using hfit) (by simpa using hs) hfo hl
       · obtain ⟨a1, a2, a3, a4, a5⟩ := fmt_vop1 f hfm (hfft.trans h)
         rw [a2, a3] at hfit
@@ -274,48 +275,58 @@ theorem instOf_size (c : Bool) (d : Desc) (hwf : wellFormed d = true) : (instOf 
 
 /-- **Decoding never reads past the encoding**: the bytes of a well-formed description alone decode like the bytes
     followed by anything. -/
-theorem decode_encode_exact (c : Bool) (d : Desc) (hwf : wellFormed d = true) (hdev : deviates d = false) (t : List Nat) :
+theorem decode_encode_exact (c : Bool) (d : Desc) (hwf : wellFormed d = true) (t : List Nat) :
     decode c (encode d ++ t) = decode c (encode d) := by
-  have h := decode_encode c d hwf hdev []
+  have h := decode_encode c d hwf []
   rw [List.append_nil] at h
-  rw [h, decode_encode c d hwf hdev t]
+  rw [h, decode_encode c d hwf t]
 
-/-- The full statement — the round trip for EVERY well-formed description, including the two classes of `deviates` —
-    is false of the decoder as it is: -/
+/-- The full statement — the round trip for EVERY well-formed description, with no class left out. -/
 def decode_encode_full : Prop :=
   ∀ (c : Bool) (d : Desc) (t : List Nat), wellFormed d = true → decode c (encode d ++ t) = .ok (instOf c d)
 
+/-- It holds of the repaired decoder (`s_setreg_imm32_b32` consumes its SIMM32, S0 is read from bit 23). -/
+theorem decode_encode_full_holds : decode_encode_full := fun c d t hwf => decode_encode c d hwf t
+
+/-- the same statement about the decoder as it was before the two repairs (`decodeOld`) -/
+def decode_encode_full_before_fix : Prop :=
+  ∀ (c : Bool) (d : Desc) (t : List Nat), wellFormed d = true → decodeOld c (encode d ++ t) = .ok (instOf c d)
+
 /-- witness 1: `s_setreg_imm32_b32 hwreg(1), 0x12345678` = `ba000001 12345678` (SOPK opcode 20 carries a 32-bit SIMM32
-    behind the first dword): 8 bytes, the decoder reports 4 — a sequential decode then takes the immediate for the next
-    instruction. witness 2: `v_add_f32_sdwa v0, s1, v2` (SDWA dword with S0 = bit 23): the decoder reads S0 from bit 30
-    and returns the VGPR `v1` as SRC0. -/
-theorem decode_encode_full_refuted : ¬ decode_encode_full := by
+    behind the first dword): 8 bytes, the old decoder reported 4 — a sequential decode then took the immediate for the
+    next instruction. witness 2: `v_add_f32_sdwa v0, s1, v2` (SDWA dword with S0 = bit 23): the old decoder read S0 from
+    bit 30 and returned the VGPR `v1` as SRC0. -/
+theorem decode_encode_full_before_fix_refuted : ¬ decode_encode_full_before_fix := by
   intro h
   have := h false { ft := FT_SOPK, op := 20, simm16 := 1, lit := some 0x12345678 } [] (by decide +kernel)
   revert this
   decide +kernel
 
-/-- the SOPK witness, spelled out: well-formed, 8 bytes, decoded with size 4 on both architectures -/
-theorem setreg_imm32_missized :
+/-- the SOPK witness, spelled out: well-formed, 8 bytes, decoded with size 4 on both architectures before the repair;
+    now with size 8 and the immediate kept in SRC0 -/
+theorem setreg_imm32_missized_before_fix :
     let d : Desc := { ft := FT_SOPK, op := 20, simm16 := 1, lit := some 0x12345678 }
     wellFormed d = true ∧ encode d = [0x01, 0x00, 0x00, 0xba, 0x78, 0x56, 0x34, 0x12] ∧
-    (∀ c, (match decode c (encode d) with | .ok i => (i.name, i.size) | _ => ("", 0)) = ("s_setreg_imm32_b32", 4)) := by
-  refine ⟨by decide +kernel, by decide +kernel, ?_⟩
-  intro c
-  cases c <;> decide +kernel
+    (∀ c, (match decodeOld c (encode d) with | .ok i => (i.name, i.size) | _ => ("", 0)) = ("s_setreg_imm32_b32", 4)) ∧
+    (∀ c, (match decode c (encode d) with | .ok i => (i.name, i.size, i.src0) | _ => ("", 0, none)) =
+      ("s_setreg_imm32_b32", 8, some (.lit 0 0x12345678))) := by
+  refine ⟨by decide +kernel, by decide +kernel, ?_, ?_⟩ <;>
+  · intro c
+    cases c <;> decide +kernel
 
 /-- the SDWA witness, spelled out: `v_add_f32_sdwa v0, s1, v2 dst_sel:DWORD src0_sel:DWORD src1_sel:DWORD` is
-    well-formed, its ISA encoding is `000400f9 06860601`; the decoder answers SRC0 = `v1` (VGPR), the description
-    denotes `s1` (SGPR) -/
-theorem sdwa_s0_misread :
+    well-formed, its ISA encoding is `000400f9 06860601`; the old decoder answered SRC0 = `v1` (VGPR), the description
+    denotes `s1` (SGPR), which the repaired decoder returns -/
+theorem sdwa_s0_misread_before_fix :
     let d : Desc := { ft := FT_VOP2, op := 1, sdwa := 1, src0 := 1, s0 := 1, vsrc1 := 2, vdst := 0,
                       dstSel := 6, src0Sel := 6, src1Sel := 6 }
     wellFormed d = true ∧ encode d = [0xf9, 0x04, 0x00, 0x02, 0x01, 0x06, 0x86, 0x06] ∧
     (instOf false d).src0 = some (sreg 1 1 0) ∧
-    (∀ c, (match decode c (encode d) with | .ok i => i.src0 | _ => none) = some (vreg 1 1 0)) := by
-  refine ⟨by decide +kernel, by decide +kernel, by decide +kernel, ?_⟩
-  intro c
-  cases c <;> decide +kernel
+    (∀ c, (match decodeOld c (encode d) with | .ok i => i.src0 | _ => none) = some (vreg 1 1 0)) ∧
+    (∀ c, (match decode c (encode d) with | .ok i => i.src0 | _ => none) = some (sreg 1 1 0)) := by
+  refine ⟨by decide +kernel, by decide +kernel, by decide +kernel, ?_, ?_⟩ <;>
+  · intro c
+    cases c <;> decide +kernel
 
 /-- non-vacuity of the architecture split: VOP1 opcode 0x38 (`7e047104`) is `v_mov_b64 v[2:3], v[4:5]`
     for a CDNA3 disassembler and `v_movrelsd_b32 v2, v4` otherwise -/
@@ -349,7 +360,7 @@ example : [ ({ ft := FT_SOP2, op := 0, sdst := 1, ssrc0 := 255, ssrc1 := 2, lit 
 /-- non-vacuity for the formats added by the deepening: `v_mad_f32 v1, v2, -|s3|, 1.0 clamp`-style VOP3a, a VOPC opcode in
     VOP3a encoding writing `vcc`, a packed row with OP_SEL, `v_add_co_u32 v1, vcc, v2, v3` (VOP3b), `v_mad_u64_u32`,
     `ds_write2_b32` with separate offsets, `ds_read_b64`, `global_load_dwordx2 v[1:2], v3, s[4:5] offset:-8`,
-    `flat_store_dword`, `v_add_f32_sdwa` — all well-formed, none deviating; reserved operand codes / over-wide fields /
+    `flat_store_dword`, `v_add_f32_sdwa` (also with an SGPR SRC0), `s_setreg_imm32_b32` — all well-formed; reserved operand codes / over-wide fields /
     an SDWA K-opcode are rejected -/
 example : [ ({ ft := FT_VOP3a, op := 449, vdst := 1, src0 := 258, src1 := 3, src2 := 242, abs := 2, neg := 2, clamp := 1 } : Desc),
             { ft := FT_VOP3a, op := 0x41, vdst := 106, src0 := 257, src1 := 258 },
@@ -361,7 +372,10 @@ example : [ ({ ft := FT_VOP3a, op := 449, vdst := 1, src0 := 258, src1 := 3, src
             { ft := FT_FLAT, op := 21, seg := 2, offset := 0x1ff8, addr := 3, saddr := 4, vdst := 1, glc := 1 },
             { ft := FT_FLAT, op := 28, seg := 0, addr := 2, data := 7, saddr := 0x7f, slc := 1 },
             { ft := FT_VOP2, op := 1, sdwa := 1, src0 := 1, vsrc1 := 2, s1 := 1, vdst := 0, dstSel := 4, dstUnused := 2,
-              src0Sel := 6, src1Sel := 5 } ].all (fun d => wellFormed d && !deviates d) = true ∧
+              src0Sel := 6, src1Sel := 5 },
+            { ft := FT_VOP2, op := 1, sdwa := 1, src0 := 1, s0 := 1, vsrc1 := 2, vdst := 0, dstSel := 6, src0Sel := 6,
+              src1Sel := 6 },
+            { ft := FT_SOPK, op := 20, simm16 := 1, lit := some 0x12345678 } ].all wellFormed = true ∧
     wellFormed { ft := FT_VOP3a, op := 449, vdst := 1, src0 := 258, src1 := 3, src2 := 209 } = false ∧
     wellFormed { ft := FT_VOP3a, op := 449, vdst := 1, src0 := 258, src1 := 3, src2 := 4, abs := 8 } = false ∧
     wellFormed { ft := FT_FLAT, op := 21, offset := 0x2000 } = false ∧
